@@ -127,7 +127,9 @@ def h_junit(sx):
                         if bad_steps and not (names_hook and st[e.eid] == "hook_error"):
                             # the responsible step is the FIRST one that went wrong (later ones are only skipped/undefined remainders)
                             fl_ = [l for l in text.splitlines() if "Failing step:" in l]
-                            sx.check(names_step and bool(fl_) and bad_steps[0] in fl_[0], "C16.problem-entry-names-the-step",
+                            # (a dry-run scenario with an undefined step gets "Undefined Step: <name>" as its entry)
+                            sx.check((names_step and bool(fl_) and bad_steps[0] in fl_[0]) or ("Undefined Step: %s" % bad_steps[0].strip()) in text,
+                                     "C16.problem-entry-names-the-step",
                                      detail=lambda m, e=e, text=text, bad_steps=bad_steps: dict(det(m), sid=e.eid, responsible=bad_steps[0], text=text[:300]))
                         elif st[e.eid] == "hook_error":
                             sx.check(names_hook, "C16.problem-entry-names-the-hook", detail=lambda m, e=e, text=text: dict(det(m), sid=e.eid, text=text[:300]))
@@ -288,6 +290,7 @@ def jobs(tier, seed):
     shapes = {
         "2sc": ([F([S(1, rich=True), S(1)])], {"out_dom": {"*": [0, 1]}}, False),
         "3steps": ([F([S(3)], bg=1)], {"out_dom": {"*": [0, 3]}}, False),
+        "dry-run": ([F([S(2), S(1)], bg=1)], {"out_dom": {"*": [0, 0]}, "dry_run": "sym"}, False),      # steps may lack a definition
         "outline-rule": ([F([S(1), O(1, [(2, [])]), R([S(1)])]), F([S(1)])], {"out_dom": {"*": [0, 1]}, "stop": "sym"}, False),
         "hooks": ([F([S(1, tags=["t1"]), S(1)], tags=["t0"])], {"out_dom": {"*": [0, 1]}, "undef": False}, True),
         "cleanup": ([F([S(1), S(1)])], {"out_dom": {"*": [5, 6]}, "cleanups": True, "undef": False}, False),
@@ -297,7 +300,7 @@ def jobs(tier, seed):
         shapes.update({"2feat-select": ([F([S(1), S(1)]), F([S(2)])], {"out_dom": D, "select": True}, False),
                        "bg": ([F([S(2), R([S(1)], bg=1)], bg=1)], {"out_dom": {"*": [0, 5]}}, False)})
     for name, (sh, opts, hooks) in shapes.items():
-        sub = {} if name == "2sc" else {"hostile_idx": [0], "wheres": ["message"]} if name == "3steps" else {"hostile_idx": [0, 3, 9], "wheres": ["scenario-name", "message"] + (["hook-message"] if hooks else [])}
+        sub = {} if name == "2sc" else {"hostile_idx": [0], "wheres": ["message"]} if name in ("3steps", "dry-run") else {"hostile_idx": [0, 3, 9], "wheres": ["scenario-name", "message"] + (["hook-message"] if hooks else [])}
         js.append(Job("junit.%s" % name, "props.c16:h_junit", dict({"shapes": sh, "opts": opts, "hooks": hooks}, **sub),
                       reach=REACH, min_paths=20, cost=100, validate=40, closure=False))
     return js
